@@ -151,6 +151,18 @@ Example ex_three_executors_exist :
   = [(2%nat, 5%nat, [(1, 50); (3, 7)]); (3%nat, 5%nat, [(100, 5)]); (4%nat, 5%nat, [(1, 51); (3, 7)])].
 Proof. vm_compute. reflexivity. Qed.
 
+(* the hypotheses of runs_independent are met (executor 2 of the history: made from builder 0 AFTER its seed was
+   written again, so its snapshot differs from executor 0's), and the fresh process of its conclusion really is in
+   that state *)
+Example ex_runs_independent_instance :
+  match nth_error (p_execs _ (prun (gst * gsmap) eng_init eng_step eng_types ex_history)) 2 with
+  | Some e => apply_sets [(1, 51); (3, 7)] [] = e_seed0 e /\ e_recipe e = ex_prog /\ e_steps e = 5%nat
+  | None => False
+  end /\
+  exec_state _ (prun (gst * gsmap) eng_init eng_step eng_types ex_history) 2 =
+  exec_state _ (prun (gst * gsmap) eng_init eng_step eng_types (alone_ops ex_prog [(1, 51); (3, 7)] 5)) 0.
+Proof. vm_compute. repeat split; reflexivity. Qed.
+
 (* the hypotheses of engine_runs_independent hold for executor 0 of that history (it finished in 5 cycles) *)
 Example ex_hypotheses_hold :
   match nth_error (p_execs _ (prun (gst * gsmap) eng_init eng_step eng_types ex_history)) 0 with
